@@ -239,3 +239,28 @@ MUTANTS += [
          old="    def _encode_string(self, string: str):\n        s = EncodedArray(np.frombuffer(bytes(string, encoding=\"ascii\"), dtype=np.uint8), BaseEncoding)\n        s = self._encode_base_encoded_array(s)\n        return s",
          new="    def _encode_string(self, string: str):\n        cache = self.__dict__.setdefault('_literal_cache', {})\n        if string in cache:\n            return cache[string]\n        s = EncodedArray(np.frombuffer(bytes(string, encoding=\"ascii\"), dtype=np.uint8), BaseEncoding)\n        s = self._encode_base_encoded_array(s)\n        if len(string) <= 16:\n            cache[string] = s\n        return s"),
 ]
+
+MUTANTS += [
+    # ---- C18 ----------------------------------------------------------------------------
+    dict(prop="C18", name="int-width-from-float-log", file=SO,
+         old="    lengths = np.searchsorted(powers_of_ten, magnitude, side='right')+1", new="    lengths = np.log10(np.maximum(magnitude, 1)).astype(int)+1"),
+    dict(prop="C18", name="int-width-searchsorted-side", file=SO,
+         old="    lengths = np.searchsorted(powers_of_ten, magnitude, side='right')+1", new="    lengths = np.searchsorted(powers_of_ten, magnitude, side='left')+1"),
+    dict(prop="C18", name="abs-overflows-for-int64-min", file=SO,
+         old="    magnitude = np.abs(number).astype(np.uint64)", new="    magnitude = np.abs(number).astype(np.int64).clip(0).astype(np.uint64)"),
+    dict(prop="C18", name="power-array-first-row-offset", file=SO,
+         old="    index_array[0] += lengths[0]-offset_0", new="    index_array[0] += lengths[0]-offset_0 - (lengths[0] > 18)"),
+    dict(prop="C18", name="plus-sign-only-first-row", file=SO,
+         old='        is_positive = number_text[:, 0] == "+"', new='        is_positive = (number_text[:, 0] == "+") & (np.arange(len(number_text)) < 4)'),
+    dict(prop="C18", name="float-fraction-exponent-off-for-long", file=SO,
+         old="    exponents[row_indices] = number_text.lengths[row_indices] - col_indices-1",
+         new="    exponents[row_indices] = np.minimum(number_text.lengths[row_indices] - col_indices-1, 16)"),
+    dict(prop="C18", name="float-sign-from-batch", file=SO,
+         old='    signs = np.where(is_negative, -1, +1)\n    return signs*base_numbers / powers', new='    signs = np.where(is_negative | (is_negative.any() if len(is_negative) > 6 else False), -1, +1)\n    return signs*base_numbers / powers'),
+    dict(prop="C18", name="scientific-rows-misassigned", file=SO,
+         old="        numbers[scientific] = _scientific_str_to_float(number_text[scientific])", new="        numbers[scientific] = _scientific_str_to_float(number_text[scientific])[::-1] if scientific.sum() == 3 else _scientific_str_to_float(number_text[scientific])"),
+    dict(prop="C18", name="int-list-row-length", file=SO,
+         old="    row_lens = lengths.sum(axis=-1)+int_lists.lengths", new="    row_lens = lengths.sum(axis=-1)+np.maximum(int_lists.lengths, 1)"),
+    dict(prop="C18", name="missing-value-only-all-dots", file=SO,
+         old="    mask = number_text.lengths > 0\n", new="    mask = number_text.lengths >= 0\n"),
+]
